@@ -27,6 +27,39 @@ def scenarios(rng, tier):
                 if a and (not b or rng.random() < 0.5): mix.append(a.pop(0))
                 else: mix.append(b.pop(0))
             s.start('iso_%d~m%d' % (k, j)); s.lines += head + mix
+    M = mac(1)
+    for k in range(10 if tier == 'quick' else 200):
+        # h0 / h1 built by hand: each interface also receives probes whose real destination is the OTHER interface's address
+        m0, m1 = bytes([2, 0xA0, 0, 0, 0, k & 255]), bytes([2, 0xB0, 0, 0, 0, k & 255])
+        head = [Cfg(0, mac=m0).line(), Cfg(1, mac=m1).line(), Cfg(2, mac=bytes([2, 0xC0, 0, 0, 0, 1])).line()]
+        big = (k % 5 == 0)
+        def hist(c, me, other):
+            h = Scn(); h.frame(c, discover(M, gen=1))
+            n_ = (1024 if c == 0 else 600) if big else rng.choice([3, 8])
+            for i in range(n_):
+                h.frame(c, probe(mac(500 + 1000 * c + i), me, mac(500 + 1000 * c + i), me))
+                if not big and rng.random() < 0.5: h.frame(c, probe(mac(900 + i), other, mac(900 + i), other))
+            if rng.random() < 0.5: h.lines.append('cfg %d mac=%s macfail=1' % (c, me.hex())); h.frame(c, probe(mac(950), me, mac(950), me)); h.lines.append('cfg %d mac=%s macfail=0' % (c, me.hex()))
+            h.frame(c, query(M, me, seq=5)); h.frame(c, query(M, me, seq=6))
+            return h.lines
+        h0, h1 = hist(0, m0, m1), hist(1, m1, m0)
+        h2 = ['frame 2 00 ' + hx(discover(M, gen=1))]
+        s.start('xaddr_%d~a0' % k); s.lines += head + h0
+        s.start('xaddr_%d~a1' % k); s.lines += head + h1
+        for j in range(2):
+            a, b = list(h0), list(h1); mix = []; third = list(h2)
+            while a or b:
+                r_ = rng.random()
+                if third and r_ < 0.05: mix.append(third.pop(0))
+                elif a and (not b or r_ < 0.5):
+                    # keep a cfg/frame/cfg triple together
+                    mix.append(a.pop(0))
+                    while a and (mix[-1].startswith('cfg') or (a[0].startswith('cfg') and 'macfail=0' in a[0])): mix.append(a.pop(0))
+                    if mix[-1].startswith('cfg') and 'macfail=1' in mix[-1] and third: mix.append(third.pop(0)); 
+                else:
+                    mix.append(b.pop(0))
+                    while b and (mix[-1].startswith('cfg') or (b[0].startswith('cfg') and 'macfail=0' in b[0])): mix.append(b.pop(0))
+            s.start('xaddr_%d~m%d' % (k, j)); s.lines += head + mix
     return [(s.text(), {})]
 def project(blk, name, meta):
     if blk.fault: return ('fault',)
